@@ -134,6 +134,9 @@ def run_case(case, work, rec):
             elif nrun % 5 == 4 and prev_out and os.path.isdir(prev_out):
                 out = prev_out
                 existing = "the output of an earlier strain"
+            elif nrun % 5 == 0 and "asset" not in case:
+                workload.stale_output(out, path)
+                existing = "a stale copy of a deeper plotfile with more fields, and foreign files"
             if existing:
                 descr += f" output={existing}"
                 key = key + (existing,)
